@@ -405,10 +405,14 @@ func TestVerif_C17(t *testing.T) {
 		budget int
 		full   bool
 		exact  bool // only configurations with exactly `budget` key-values (the smaller ones are in another pass)
+		one    bool // one-service configurations only
 	}
-	passes := []pass{{4, true, false}}
+	passes := []pass{{4, true, false, false}}
 	if r.Thorough() {
-		passes = []pass{{5, true, false}, {6, false, true}}
+		// ~4.7 M round trips at ~1 ms each: <=4 key-values with the full pool; exactly 5 with one
+		// timeslot-set length per lookup key (1 and 2 services); exactly 6 (720 orders) with one
+		// service and one timeslot-set length per lookup key
+		passes = []pass{{4, true, false, false}, {5, false, true, false}, {6, false, true, true}}
 	}
 	one := [][]uint32{{0}, {0x12345678}, {0xFFFFFFFF}}
 	two := [][]uint32{{0, 0xFFFFFFFF}, {1, 0x12345678}}
@@ -435,6 +439,9 @@ func TestVerif_C17(t *testing.T) {
 			}
 		}
 		for _, ids := range two {
+			if ps.one {
+				break
+			}
 			for _, e0 := range s2 {
 				for _, e1 := range s2 {
 					if len(e0)+len(e1) > ps.budget-2 || (ps.exact && len(e0)+len(e1) != ps.budget-2) {
